@@ -190,6 +190,10 @@ def smooth_resid(case, x):
                     extra.append(np.sqrt(x[i] - v) if side == "l" else np.sqrt(v - x[i]))
             r = np.concatenate([r, np.array(extra, dtype=float)])
         return r
+    if f == "big":       # many residuals without a stored matrix (printing thresholds of C20)
+        i = np.arange(case["m"], dtype=float)
+        j = np.arange(1, n + 1, dtype=float)
+        return (np.cos(np.outer(i, j)) / j).dot(x) - np.sin(i)
     if f == "rosen":
         if n == 1:
             return np.array([x[0] - 1.0, 0.1 * x[0]])
@@ -574,7 +578,9 @@ def draw_options(draw, n, npt, prof, has_two_sided):
         if draw(st.integers(0, 3)) == 0 and n > 1 and npt < maxnpt:
             up["restarts.increase_npt"] = True
             up["restarts.max_npt"] = min(npt + draw(st.integers(1, 3)), maxnpt)
-            if draw(st.booleans()):
+            if mode == "soft" and draw(st.booleans()):
+                # hard restarts that add more points per restart than initial directions re-enter the growing phase
+                # with npt > n+1 (known finding 'hard-restart-npt-growth' of C07): soft restarts only
                 up["restarts.increase_npt_amt"] = draw(st.integers(1, 2))
             tags.append("increase_npt")
         if draw(st.integers(0, 1)) == 0:
@@ -699,6 +705,8 @@ def scenarios(draw, prof=None):
         if fam == "hashed":
             case["amp"] = draw(st.sampled_from([0.01, 0.3, 3.0]))
             case["prf_seed"] = draw(st.integers(0, 2 ** 20))
+    elif fam == "big":
+        case["m"] = draw(st.sampled_from([100, 120]))
     elif fam == "script":
         rows = draw(st.integers(1, 9))
         case["script"] = [[float(draw(st.integers(-3, 3))) for _ in range(m)] for _ in range(rows)]
